@@ -31,6 +31,7 @@ def required_cells(tier):
             req["combo:%s,%s/%s" % (a, b, r)] = 50 if q else 2000
     req["history:direction-vector-reused-after-assignment"] = 300
     req["history:construction-points-moved-before-first-use"] = 300
+    req["history:factory-objects-used-then-directions-compared"] = 50
     req["nt:int"] = 1000
     req["gen:near-parallel"] = 1000
     return req
@@ -81,6 +82,9 @@ def cases(rng, budget, widx, nworkers, tier):
             v = gen.rdir(rng, 4)
             label = "random"
         n += 1
+        if n % 400 == 0:
+            yield {"k": "factory", "w": [float(c) for c in gen.rdir(rng, 2)], "u": u, "v": v, "combo": 0, "label": "factory"}
+            continue
         c_ = {"u": u, "v": v, "combo": n % len(COMBOS), "label": label, "ls": rng.getrandbits(30),
               "p": gen.rpt(rng), "q": gen.rpt(rng)}
         if rng.random() < 0.1:
@@ -146,7 +150,58 @@ def _mk(G, kind, p, d, r, hist=None, nt=float, args_moved=None):
     return G.Line(P, vec) if kind == "L" else G.Plane(P, vec)
 
 
+def _judge_factory(case):
+    """objects obtained from the library's factory functions are used as a program would (a line through Vector.zero()
+    is moved by w, a unit vector is edited); afterwards directions equal to w / to the edited vector are compared with
+    directions they are NOT parallel to"""
+    G = load()
+    mu = core.Multi()
+    mu.cell("history:factory-objects-used-then-directions-compared")
+    V = G.Vector
+    w = tuple(case["w"])
+    try:
+        l = G.Line(V.zero(), V(1.0, 2.0, 2.0))
+        l.move(V(*w))
+        e = G.x_unit_vector()
+        e[1] = 3.0
+        z = V.zero()
+        z[2] = z[2] + 0.0
+    except Exception as ex:
+        mu.fail("factory:raises-" + type(ex).__name__, "ordinary use of factory objects raised %r" % ex)
+        return mu.result()
+    others = [(1.0, 0.0, 0.0), (0.0, 1.0, 0.0), (0.0, 0.0, 1.0), (1.0, 1.0, 1.0)]
+    zz = V.zero()
+    znow = (float(zz[0]), float(zz[1]), float(zz[2]))
+    ee = G.x_unit_vector()
+    enow = (float(ee[0]), float(ee[1]), float(ee[2]))
+    # (whatever zero() / x_unit_vector() hand out now is a direction like any other for this purpose)
+    for d in (w, (1.0, 3.0, 0.0)) + tuple(t for t in (znow, enow) if t != (0.0, 0.0, 0.0) and max(abs(c) for c in t) < 1e6):
+        for o in others:
+            cr = K.cross(d, o)
+            if cr == (0, 0, 0) or cr == (0.0, 0.0, 0.0):
+                continue
+            dot = K.dot(d, o)
+            want_ang = math.acos(min(1.0, abs(dot) / (K.norm(d) * K.norm(o))))
+            for mk in (lambda t: V(*t), lambda t: G.Line(G.Point(0.5, 1.0, -2.0), V(*t)), lambda t: G.Plane(G.Point(1.0, 0.0, 2.0), V(*t))):
+                a, b = mk(d), mk(o)
+                for x, y in ((a, b), (b, a)):
+                    try:
+                        par, ang = G.parallel(x, y), G.angle(x, y)
+                    except Exception as ex:
+                        mu.fail("factory:raises-" + type(ex).__name__, "parallel / angle raised %r" % ex)
+                        return mu.result()
+                    if par:
+                        mu.fail("parallel:says-True/after-factory-objects-were-used", "parallel(%r, %r) is True for directions %r and %r" % (x, y, d, o))
+                        return mu.result()
+                    if abs(ang - want_ang) > 1e-6:
+                        mu.fail("angle:wrong-value/after-factory-objects-were-used", "angle(%r, %r) = %r, exact %r" % (x, y, ang, want_ang))
+                        return mu.result()
+    return mu.result()
+
+
 def judge(case):
+    if case.get("k") == "factory":
+        return _judge_factory(case)
     G = load()
     u, v = case["u"], case["v"]
     ka, kb = COMBOS[case["combo"]]
